@@ -132,6 +132,34 @@ def run(chk, tier, seed):
             return evs
         res = common.pmap(do, list(enumerate(imgs)))
         events = [e for evs in res for e in evs]
+        # destinations that are unusual as names: one ending in a blank (with the blank-less sibling present), and one whose path is
+        # longer than a file name may be (three nested 100-character directories): both commands, with and without trailing slash
+        def do_dest(ij):
+            i, (kindd, trailing, cmdname) = ij
+            root = sandbox(scratch, "dd%d" % i)
+            if kindd == "blank":
+                comps = ["r", "d "]
+                os.makedirs(os.path.join(root, *comps))
+            else:
+                # the 256th character of the path falls in the middle of the last directory's name
+                base = len(os.path.join(root, "r", "d")) + 1
+                fill = max(1, 200 - base)
+                comps = ["r", "d"] + (["p" * min(fill, 200)] if fill <= 200 else ["p" * 200, "s" * (fill - 201)]) + ["q" * 100]
+                os.makedirs(os.path.join(root, *comps))
+            src = imgs[0][0] if kindd == "blank" else imgs[min(3, len(imgs) - 1)][0]
+            local = os.path.join(root, "r", "cwd", os.path.basename(src))
+            shutil.copy(src, local)
+            before = snapshot(root)
+            darg = os.path.join(root, *comps) + ("/" if trailing else "")
+            o = common.run([dfs, "--file", local, cmdname, darg], cwd=os.path.join(root, "r", "cwd"), timeout=60)
+            after = snapshot(root)
+            created = [k.split(os.sep) for k in sorted(after) if k not in before]
+            changed = [k for k in sorted(before) if after.get(k) != before[k]]
+            shutil.rmtree(root, ignore_errors=True)
+            return dict(e="run", extracting=1, created=created, changed=changed, image_same=1, clean=1 if o.ok_alphabet() else 0, rc=o.rc if o.rc is not None else -9,
+                        cmd=[cmdname, kindd + ("/" if trailing else "")], err=o.err.decode("latin1")[:200], disc=0, dest=comps)
+        djobs = [(k_, t_, c_) for k_ in ("blank", "long") for t_ in (False, True) for c_ in ("extract-files", "extract-unused")]
+        events += common.pmap(do_dest, list(enumerate(djobs)))
         for e in events:
             chk.case((e["disc"], tuple(e["cmd"]), e["extracting"]), nontrivial=True)
         chk.sample(dict(names=[(d, bytes(n).decode("latin1")) for d, n in imgs[0][1][:6]], event=events[0]))
@@ -146,7 +174,8 @@ def run(chk, tier, seed):
             raise common.MachineryError("TraceHostFs did not consume the whole trace:\n" + tr.output[-3000:])
         for ln in sorted(tr.verdicts[-1]["bad"]):
             e = events[ln - 1]
-            outside = [c for c in e["created"] if not (len(c) == 3 and c[:2] == ["r", "d"])]
+            dst = e.get("dest", ["r", "d"])
+            outside = [c for c in e["created"] if not (len(c) == len(dst) + 1 and c[:len(dst)] == dst)]
             kind = "escape" if outside and e["extracting"] else ("unclean" if not e["clean"] else ("image-changed" if not e["image_same"] else "creates"))
             chk.violation("%s:%s" % (e["cmd"][0] if e["cmd"][0] != "--dir" else "extract-files", kind),
                           "`%s` on disc %d: created outside the destination %r; changed %r; image_same=%s clean=%s rc=%s err=%r; names on disc: %r"
